@@ -50,3 +50,32 @@ def expected_events(cmd, ack_len, replies, finals, once):
             done = True
             break
     return ev, done
+
+
+def commands(spec, g, rng, sin, n=4):
+    """a pool of commands for one sequence: random canonical ones, and ones in which EVERY field is present and every number is
+    small (0, 1, 2) — command fields that ask the terminal to limit something (number of status informations, time-outs) then
+    actually bite against scripts of three and more replies"""
+    pool = [command(spec, g, rng, sin) for _ in range(n)]
+    for k in (0, 1, 2):
+        v = g.struct(sin, 0.0)
+
+        def small(ty, x):
+            if x is None:
+                return x
+            kk = ty["k"]
+            if kk == "opt":
+                return small(ty["t"], x)
+            if kk == "int":
+                return k
+            if kk == "vec":
+                return [small(ty["t"], e) for e in x]
+            if kk == "struct":
+                st = spec["by_name"][ty["name"]]
+                return {f["name"]: small(f["ty"], x[f["name"]]) for f in st["fields"]}
+            return x
+        v = {f["name"]: small(f["ty"], v[f["name"]]) for f in sin["fields"]}
+        b = V.fits(spec, sin, v)
+        if b is not None and len(b) < 200:
+            pool.append(b)
+    return pool
